@@ -410,7 +410,7 @@ def run(tier, seed, replay_obj=None):
         # ---- correspondence
         n1, bad1, d1 = correspondence(ctx, avh, "generic-load-stream", g_script, prop_fail)
         ctx.log("correspondence generic stream done")
-        # the shared regression scripts (incl. the late SHORT-NAME document of fix 44e5d22: rejected strictly on both sides)
+        # the shared regression scripts (incl. the late SHORT-NAME document of fix f86b268: rejected strictly on both sides)
         reg = os.path.join(VERIF, "corpus", "tree_regressions.txt")
         if os.path.exists(reg):
             n0, bad0, d0 = correspondence(ctx, avh, "tree-regressions", reg, prop_fail)
